@@ -27,6 +27,9 @@ type E2ECase struct {
 	Retry416     bool   `json:"retry_416"`
 	IfRange      string `json:"if_range"`
 	Chunked      bool   `json:"chunked"`
+	// Twin: a second client asks for another slice of the same (not yet stored) resource at the same moment;
+	// Range requests are not coalesced, so two fetches of one resource overlap (the origin takes 40 ms per body)
+	Twin bool `json:"twin,omitempty"`
 }
 
 const (
@@ -53,6 +56,10 @@ var subE2E = ev.Register("range-e2e",
 		site := origin.NewSite()
 		v1 := origin.Version{Ver: 1, Len: c.Size, ETag: etagV1, LastMod: lastModV1, HonorRange: c.HonorRange, Chunked: c.Chunked,
 			Headers: []origin.HV{{K: "Cache-Control", V: "max-age=3600"}}}
+		twin := c.Twin && !c.Prime && c.Size >= 2 && !c.Chunked
+		if twin {
+			v1.SlowMs = 40
+		}
 		site.Set("/r", "r", v1)
 		org := origin.New(site.Handler())
 		defer org.Close()
@@ -76,7 +83,32 @@ var subE2E = ev.Register("range-e2e",
 		if iv := ifRangeValues[c.IfRange]; iv != "" {
 			req.Headers = append(req.Headers, px.H{K: "If-Range", V: iv})
 		}
+		var tresp *px.Resp
+		var terr error
+		tdone := make(chan struct{})
+		if twin {
+			go func() {
+				defer close(tdone)
+				tresp, terr = env.Via(c.Transport, px.Req{Method: "GET", Host: org.Addr(), Target: "/r", ReqID: "twin", Headers: []px.H{{K: "Range", V: "bytes=1-1"}}})
+			}()
+		} else {
+			close(tdone)
+		}
 		resp, err := env.Via(c.Transport, req)
+		<-tdone
+		o.Classf("twin:%v", twin)
+		if twin {
+			switch {
+			case terr != nil || tresp.ReadErr != nil:
+				return ev.Failf("range-e2e.no-response:twin", "a concurrent Range bytes=1-1 request for the same resource: %v / %s", terr, brief(tresp))
+			case tresp.Status == 206 && (!bytes.Equal(tresp.Body, full[1:2]) || tresp.Header.Get("Content-Range") != fmt.Sprintf("bytes 1-1/%d", size)):
+				return ev.Failf("range-e2e.206-wrong-bytes:twin", "two overlapping Range requests for one resource: the bytes=1-1 request got Content-Range %q and body %q, the representation has %q there", tresp.Header.Get("Content-Range"), tresp.Body, full[1:2])
+			case tresp.Status == 200 && !bytes.Equal(tresp.Body, full):
+				return ev.Failf("range-e2e.200-incomplete:twin", "two overlapping Range requests for one resource: the bytes=1-1 request got a 200 with %d of %d bytes", len(tresp.Body), size)
+			case tresp.Status != 200 && tresp.Status != 206:
+				return ev.Failf(fmt.Sprintf("range-e2e.status-%d:twin", tresp.Status), "a concurrent satisfiable Range request got %s", brief(tresp))
+			}
+		}
 
 		v := ref.Range(c.Range, size)
 		o.Class("verdict:" + string(v.Kind))
@@ -174,6 +206,9 @@ func drawE2E(t *rapid.T) E2ECase {
 		Retry416:     rapid.Bool().Draw(t, "retry_416"),
 		IfRange:      rapid.SampledFrom([]string{"", "", "", "match-etag", "other-etag", "weak-etag", "match-date", "earlier-date", "later-date", "garbage"}).Draw(t, "ifrange"),
 		Chunked:      rapid.IntRange(0, 4).Draw(t, "chunked") == 0,
+	}
+	if !c.Prime && rapid.Bool().Draw(t, "twin") {
+		c.Twin = true
 	}
 	switch rapid.IntRange(0, 3).Draw(t, "simple") {
 	case 0, 1: // satisfiable by construction
